@@ -7,6 +7,8 @@ import (
 	"encoding/json"
 	"fmt"
 	"io"
+	"strconv"
+	"testing/iotest"
 	"math/rand"
 	"mime"
 	"net/http"
@@ -76,7 +78,10 @@ type c06In struct {
 	Registered []Bs      `json:"registered"`
 	Method     string    `json:"method"`
 	CT         []Bs      `json:"ct"`   // Content-Type header lines (none = absent)
-	Body       string    `json:"body"` // cl | cl0hdr | chunked | chunked-empty | none
+	// cl | cl0hdr | chunked | chunked-empty | none, optionally followed by "+<n>" (the payload is n bytes long; ignored for
+	// form operations, whose payload is a well-formed form) and "+eof" (the last bytes arrive together with io.EOF, as
+	// net/http's body does when the end of the message is already buffered), "+1by1" (one byte per Read), "+1by1eof" (both)
+	Body string `json:"body"`
 	// the operation's parameter set: "" a body parameter | none (no parameter at all) | pqh (only path, query and header
 	// parameters, all optional but the path one) | form (an optional formData parameter)
 	Params string `json:"params,omitempty"`
@@ -118,7 +123,9 @@ func (c06) Rule() string {
 	return "consumes lists over concrete types, type/*, */*, entries with parameters, empty, per operation or global, with/without an API default, " +
 		"consumers registered for a subset; Content-Type from a grammar (case, parameters, OWS, quoted strings, duplicate lines, absent) plus malformed values " +
 		"plus values with commas (inside and outside quoted strings, leading, trailing, several media types in one value, several header lines, an empty first line); " +
-		"body signalled by Content-Length, chunked (ContentLength -1), an explicit Content-Length: 0 header, an empty chunked stream, or absent; methods POST/PUT/PATCH/DELETE/GET; " +
+		"body signalled by Content-Length, chunked (ContentLength -1), an explicit Content-Length: 0 header, an empty chunked stream, or absent; " +
+		"payload of 1, 2, 3, 4095-4097, 70000 bytes or the usual few, delivered at once with the end of the stream reported afterwards, together with the last bytes (as net/http does when the end of the message is buffered), or byte by byte; " +
+		"charset parameters of every kind (utf-8, other encodings, quoted, unknown) among the Content-Type parameters; methods POST/PUT/PATCH/DELETE/GET; " +
 		"the operation declares a body parameter, no parameter, only path/query/header parameters, or a formData parameter (then also form media types, well-formed forms). " +
 		"Non-trivial: the request has a body and the consumes list has >=2 entries or a wildcard."
 }
@@ -144,6 +151,33 @@ func (c06) Enumerate(tier string) []any {
 						in.CT = []Bs{Bs(ct)}
 					}
 					out = append(out, in)
+				}
+			}
+		}
+	}
+	// the charset parameter says anything: it is not part of the comparison
+	for _, l := range [][]Bs{{"application/json"}, {"text/*", "application/json; charset=utf-8"}, {}} {
+		for _, mt := range []string{"application/json", "text/plain", "image/png"} {
+			for _, cs := range []string{"iso-8859-1", "UTF-16", "\"windows-1252\"", "us-ascii", "utf-7", "x"} {
+				for _, b := range []string{"cl", "chunked", "none"} {
+					out = append(out, c06In{Declared: l, Default: "application/json", Registered: []Bs{"application/json", "text/plain", "application/xml"}, Method: "POST",
+						Body: b, CT: []Bs{Bs(mt + "; charset=" + cs)}})
+				}
+			}
+		}
+	}
+	// how long the body is and how it arrives: one byte, a few, more than a buffer; the end of the stream reported with the
+	// last bytes or after them; byte by byte
+	for _, l := range [][]Bs{{"application/json"}, {}} {
+		for _, mt := range []string{"application/json", "text/plain", "image/png"} {
+			for _, b := range []string{"cl", "chunked", "cl0hdr"} {
+				for _, size := range []string{"+1", "+2", "+4097"} {
+					for _, mode := range []string{"", "+eof", "+1by1", "+1by1eof"} {
+						for _, k := range []string{"", "none"} {
+							out = append(out, c06In{Declared: l, Default: "application/json", Registered: []Bs{"application/json", "text/plain"}, Method: "POST",
+								Body: b + size + mode, CT: []Bs{Bs(mt)}, Params: k})
+						}
+					}
 				}
 			}
 		}
@@ -264,6 +298,42 @@ func c06CommaHeader(r *rand.Rand) []Bs {
 	return lines
 }
 
+// c06Charsets: charset parameter values (the property: parameters such as charset are ignored, whatever they say).
+var c06Charsets = []string{"iso-8859-1", "ISO-8859-1", "utf-16", "UTF-16LE", "utf-7", "us-ascii", "ascii", "windows-1252", "\"windows-1252\"", "latin1", "ibm037", "utf8",
+	"UTF-8", "x", "\"\"", "binary", "shift_jis", "utf-8x", "\"utf-8 \""}
+
+func c06Charset(r *rand.Rand) string {
+	return []string{"charset=", "charset=", "Charset=", "CHARSET="}[r.Intn(4)] + c06Charsets[r.Intn(len(c06Charsets))]
+}
+
+// c06Delivery: a body signal, one time in three with a payload length and / or a way of delivering it of its own.
+func c06Delivery(r *rand.Rand, base string) string {
+	if base == "none" || base == "chunked-empty" || r.Intn(3) != 0 {
+		return base
+	}
+	if r.Intn(4) != 0 {
+		base += "+" + []string{"1", "1", "1", "2", "3", "4095", "4096", "4097", "70000"}[r.Intn(9)]
+	}
+	if r.Intn(4) != 0 {
+		base += "+" + []string{"eof", "eof", "1by1", "1by1eof"}[r.Intn(4)]
+	}
+	return base
+}
+
+// c06BodySpec: the parts of a body signal: the base signal, the payload length asked for (0 = the usual payload), the delivery.
+func c06BodySpec(body string) (base string, size int, mode string) {
+	parts := strings.Split(body, "+")
+	base = parts[0]
+	for _, p := range parts[1:] {
+		if n, err := strconv.Atoi(p); err == nil && n > 0 && n <= 1<<20 {
+			size = n
+		} else {
+			mode = p
+		}
+	}
+	return
+}
+
 func c06Header(r *rand.Rand) []Bs {
 	switch r.Intn(15) {
 	case 0:
@@ -286,7 +356,7 @@ func c06Header(r *rand.Rand) []Bs {
 	v := c06Case(r, mt)
 	ws := []string{"", "", " ", "  ", "\t"}
 	for n := r.Intn(3); n > 0; n-- {
-		p := []string{"charset=utf-8", "charset=\"utf-8\"", "CHARSET=UTF-8", "boundary=xyz", "q=0.5", "version=1", "x=\"a;b\"", "x=\"a\\\"b\""}[r.Intn(8)]
+		p := []string{"charset=utf-8", "charset=\"utf-8\"", "CHARSET=UTF-8", "boundary=xyz", "q=0.5", "version=1", "x=\"a;b\"", "x=\"a\\\"b\"", c06Charset(r), c06Charset(r)}[r.Intn(10)]
 		v += ws[r.Intn(len(ws))] + ";" + ws[r.Intn(len(ws))] + p
 	}
 	if r.Intn(10) == 0 {
@@ -404,7 +474,7 @@ func c06GenHist(r *rand.Rand) c06In {
 			ct = c06FormHeader(r)
 		}
 		st.CT = ct
-		st.Body = []string{"cl", "cl", "cl", "chunked", "chunked", "cl0hdr", "chunked-empty", "none"}[r.Intn(8)]
+		st.Body = c06Delivery(r, []string{"cl", "cl", "cl", "chunked", "chunked", "cl0hdr", "chunked-empty", "none"}[r.Intn(8)])
 		in.Steps = append(in.Steps, st)
 	}
 	return in
@@ -424,7 +494,7 @@ func (c06) Gen(r0 *rand.Rand, tier string, i int) any {
 	in := c06Config(r)
 	in.Method = []string{"POST", "POST", "PUT", "PATCH", "DELETE", "GET"}[r.Intn(6)]
 	in.CT = c06Header(r0)
-	in.Body = []string{"cl", "cl", "cl", "chunked", "chunked", "cl0hdr", "chunked-empty", "none"}[r0.Intn(8)]
+	in.Body = c06Delivery(r0, []string{"cl", "cl", "cl", "chunked", "chunked", "cl0hdr", "chunked-empty", "none"}[r0.Intn(8)])
 	if in.Params == "form" && r0.Intn(2) == 0 {
 		in.CT = c06FormHeader(r0)
 	}
@@ -610,6 +680,9 @@ func c06Params(kind, path string) []any {
 // (multipart with the header's own boundary when it has one, else url-encoded pairs); else a small JSON document.
 func c06Payload(in c06In) []byte {
 	if in.Params != "form" {
+		if _, size, _ := c06BodySpec(in.Body); size > 0 {
+			return []byte(strings.Repeat("7", size))
+		}
 		return []byte(`{"a":1}`)
 	}
 	if len(in.CT) > 0 {
@@ -666,16 +739,26 @@ func c06Request(in c06In) *http.Request {
 	}
 	req := httptest.NewRequest(in.Method, path, nil)
 	payload := c06Payload(in)
-	switch in.Body {
+	base, _, mode := c06BodySpec(in.Body)
+	var src io.Reader = bytes.NewReader(payload)
+	switch mode {
+	case "eof":
+		src = iotest.DataErrReader(src)
+	case "1by1":
+		src = iotest.OneByteReader(src)
+	case "1by1eof":
+		src = iotest.DataErrReader(iotest.OneByteReader(src))
+	}
+	switch base {
 	case "cl":
-		req.Body = c06Reader{bytes.NewReader(payload)}
+		req.Body = c06Reader{src}
 		req.ContentLength = int64(len(payload))
 	case "cl0hdr":
-		req.Body = c06Reader{bytes.NewReader(payload)}
+		req.Body = c06Reader{src}
 		req.ContentLength = 0
 		req.Header.Set("Content-Length", "0")
 	case "chunked":
-		req.Body = c06Reader{bytes.NewReader(payload)}
+		req.Body = c06Reader{src}
 		req.ContentLength = -1
 		req.TransferEncoding = []string{"chunked"}
 	case "chunked-empty":
@@ -993,6 +1076,7 @@ func c06OptStatus(s int) string {
 }
 
 func c06BodyFlags(body string) (clPos, hdr, nonempty bool) {
+	body, _, _ = c06BodySpec(body)
 	return body == "cl", body == "cl0hdr", body == "cl" || body == "chunked" || body == "cl0hdr"
 }
 
@@ -1154,7 +1238,23 @@ func (c06) Category(inAny any, obsAny any) (string, bool) {
 	if in.Default == "" {
 		lst += "/nodefault"
 	}
-	cat := fmt.Sprintf("%s/%s/%s/%s/%d", in.Method, in.Body, hdr, lst, obs.HStatus)
+	sig, size, mode := c06BodySpec(in.Body)
+	switch {
+	case size == 1:
+		sig += "+one-byte"
+	case size > 0:
+		sig += "+sized"
+	}
+	if mode != "" {
+		sig += "+" + mode
+	}
+	for _, l := range in.CT {
+		if v := strings.ToLower(string(l)); strings.Contains(v, "charset=") && !strings.Contains(v, "charset=utf-8") && !strings.Contains(v, "charset=\"utf-8\"") {
+			hdr += "+other-charset"
+			break
+		}
+	}
+	cat := fmt.Sprintf("%s/%s/%s/%s/%d", in.Method, sig, hdr, lst, obs.HStatus)
 	if in.Params != "" {
 		cat = "params-" + in.Params + "/" + cat
 	}
